@@ -252,12 +252,53 @@ def rule_keyspace(program, ctx):
         ctx.bad(finding_func(P, rid, tc, "TagIndex.convert no longer indexes exactly one-character names, 'expiration' and 'delegation': '#x' filters or the garbage collector miss events", text="def convert(...) :: coverage"))
 
 
+def rule_injective(program, ctx, prop=P, rid="C10.injective"):
+    ctx.rule(
+        rid,
+        "index key derivations are injective on the indexed field: in every to_key of the INDEXES classes an integer is rendered by `<value>.to_bytes(4, 'big')` applied to "
+        "the field itself (out-of-range values raise and abort the task) - no mask, modulo, clamp or abs() in front of it, which would file an event under a kind / "
+        "timestamp it does not have; PubkeyIndex/AuthorKindIndex/KindIndex/CreatedIndex.convert yield exactly one key, derived from the event's own field",
+        floor=4,
+    )
+    kv = program.module("nostr_relay.storage.kv")
+    want = {"CreatedIndex": "event.created_at", "KindIndex": "event.kind", "PubkeyIndex": "event.pubkey", "AuthorKindIndex": "(event.pubkey, event.kind)", "IdIndex": None}
+    for name, ci, node in registry(program):
+        if ci is None:
+            continue
+        tk = ci.methods.get("to_key")
+        if tk is not None:
+            for c in ast.walk(tk):
+                if isinstance(c, ast.Call) and isinstance(c.func, ast.Attribute) and c.func.attr == "to_bytes":
+                    recv = c.func.value
+                    lossy = [b for b in ast.walk(recv) if isinstance(b, ast.BinOp) and isinstance(b.op, (ast.BitAnd, ast.Mod, ast.FloorDiv, ast.RShift, ast.BitOr))] + \
+                            [b for b in ast.walk(recv) if isinstance(b, ast.Call) and call_name(b) in ("abs", "min", "max", "int")]
+                    if lossy:
+                        ctx.bad(finding_at(prop, rid, c, f"{ci.node.name}.to_key renders `{ast.unparse(recv)[:50]}`: different field values share a key - an event is indexed (and later found, "
+                                           "superseded or garbage-collected) under a value it does not have"))
+                    else:
+                        ctx.ok(rid, c, f"{ci.node.name}.to_key: {ast.unparse(c)[:60]}")
+        cv = ci.methods.get("convert")
+        if cv is not None and ci.node.name in want and want[ci.node.name]:
+            ys = [y for y in walk_no_nested(cv) if isinstance(y, ast.Yield)]
+            loops = [l for l in walk_no_nested(cv) if isinstance(l, (ast.For, ast.While))]
+            if len(ys) == 1 and not loops and isinstance(ys[0].value, ast.Call) and call_name(ys[0].value) == "self.to_key" and ast.unparse(ys[0].value.args[0]) == want[ci.node.name]:
+                ctx.ok(rid, ys[0], f"{ci.node.name}.convert yields the single key of {want[ci.node.name]}")
+            else:
+                ctx.bad(finding_func(prop, rid, cv, f"{ci.node.name}.convert no longer yields exactly one key for {want[ci.node.name]}: the index also lists the event under other authors/kinds "
+                                     "(the supersede scan of WriterThread._post_save treats every hit as an older version by the same author)", text=f"def convert(...) :: {ci.node.name}"))
+
+
 def run(program, ctx):
+    from ..lib import rule_awaited
+
+    rule_awaited(program, ctx, P, ANCHORS)
     rule_symmetric(program, ctx)
     rule_samelist(program, ctx)
     c07.rule_owner(program, ctx, prop=P, rid="C10.txn")
     rule_callers(program, ctx)
     rule_keyspace(program, ctx)
+    rule_injective(program, ctx)
+    c07.rule_ctxmgr(program, ctx, prop=P, rid="C10.ctxmgr")
     # one region / no swallowing handler: same constructs as C07.kvregion
     ridr = ctx.rule("C10.region", "all index mutations of one task inside one write transaction, no handler inside it swallows a failed write (see C07.kvregion)", floor=1)
     run_fn = program.func("nostr_relay.storage.kv:WriterThread.run")
